@@ -66,6 +66,10 @@ type cursorTokenData struct {
 type resolvedCall struct {
 	SchemaIPC []byte
 	StreamID  string
+	// CreatedAt is the call token's mint time (Unix seconds). A cache entry
+	// expires when the token it stands in for does, so a hit can never accept
+	// a continuation the token path would refuse as expired.
+	CreatedAt int64
 }
 
 // defaultCallStateCacheEntries bounds the per-process call cache.
@@ -144,15 +148,16 @@ func (c *callStateCache) put(callID string, auth *AuthContext, call *resolvedCal
 	key := callID + "\x00" + callStateIdentity(auth)
 	c.mu.Lock()
 	defer c.mu.Unlock()
+	expiresAt := time.Unix(call.CreatedAt, 0).Add(c.ttl)
 	if el, ok := c.entries[key]; ok {
 		el.Value.(*callStateEntry).call = call
-		el.Value.(*callStateEntry).expiresAt = time.Now().Add(c.ttl)
+		el.Value.(*callStateEntry).expiresAt = expiresAt
 		c.order.MoveToFront(el)
 		return
 	}
 	el := c.order.PushFront(&callStateEntry{
 		key:       key,
-		expiresAt: time.Now().Add(c.ttl),
+		expiresAt: expiresAt,
 		call:      call,
 	})
 	c.entries[key] = el
@@ -451,7 +456,7 @@ func (h *HttpServer) packCallToken(callID string, outputSchema *arrow.Schema, au
 	}
 	// Warm the cache with the values we already hold, so this stream's first
 	// continuation does not have to open the token it was just handed.
-	h.callStates.put(callID, auth, &resolvedCall{SchemaIPC: data.SchemaIPC, StreamID: streamID})
+	h.callStates.put(callID, auth, &resolvedCall{SchemaIPC: data.SchemaIPC, StreamID: streamID, CreatedAt: data.CreatedAt})
 	return token, nil
 }
 
@@ -515,7 +520,7 @@ func (h *HttpServer) resolveCall(cursor *cursorTokenData, callToken []byte, auth
 		return nil, &RpcError{Type: "RuntimeError", Message: "Malformed state token"}
 	}
 
-	got := &resolvedCall{SchemaIPC: data.SchemaIPC, StreamID: data.StreamID}
+	got := &resolvedCall{SchemaIPC: data.SchemaIPC, StreamID: data.StreamID, CreatedAt: data.CreatedAt}
 	h.callStates.put(cursor.CallID, auth, got)
 	return got, nil
 }
